@@ -19,16 +19,16 @@ DB_ERRORS = ('database is locked', 'database table is locked', 'no such table', 
 
 def scenario_list(tier, seed, focus):
     rnd = random.Random(seed * 104729 + (3 if focus == 'locks' else 4))
-    n = {'quick': 24, 'thorough': 120}[tier]
+    n = {'quick': 40 if focus == 'locks' else 24, 'thorough': 160}[tier]
     out = []
     for i in range(n):
         out.append({'id': i, 'seed': rnd.randrange(1 << 30),
                     'size': rnd.choice([4, 6, 8, 12] if tier == 'quick' else [4, 6, 8, 12, 16, 24]),
                     'ncmd': rnd.randint(2, 6) if focus == 'locks' else rnd.randint(3, 10),
                     'queries': focus == 'db' or rnd.random() < 0.3,
-                    'fresh': rnd.random() < (0.5 if focus == 'db' else 0.7),      # no .redo yet: the commands create it
+                    'fresh': rnd.random() < (0.5 if focus == 'db' else 0.35),     # no .redo yet: the commands create it
                     'fail': rnd.choice([0, 0, 0, 1]),
-                    'stamp': rnd.choice([0, 1, 2]),
+                    'stamp': rnd.choice([0, 1, 2]) if focus == 'db' else rnd.choice([1, 2, 2, 3]),
                     'log': rnd.random() < 0.3,
                     'spread_ms': rnd.choice([0, 0, 5, 30, 100])})
     return out
@@ -150,7 +150,13 @@ def run_check(pid, tier, focus, verdict):
     scs = scenario_list(tier, common.seed(), focus)
     with ThreadPoolExecutor(4) as ex:
         results = list(ex.map(lambda sc: run_scenario(sc, root, bindir, focus), scs))
-    cov = {'concurrent_scenarios': len(results), 'real_commands': sum(len(r['cmds']) for r in results),
+    n_unl = 0
+    for r in results:
+        try:
+            n_unl += sum(1 for ln in open(r['trace']) if '"ev":"ProcStart"' in ln and '"unlocked":"1"' in ln)
+        except OSError:
+            pass
+    cov = {'redo_unlocked_delegates_observed': n_unl, 'concurrent_scenarios': len(results), 'real_commands': sum(len(r['cmds']) for r in results),
            'fresh_state_dirs': sum(1 for s in scs if s['fresh']), 'seed': common.seed()}
     other = 0
     for r in results:
